@@ -1108,6 +1108,8 @@ def show(t, depth=0, maxdepth=7):
         return '%s.%s' % (t[1].split('.')[-1], t[2])
     if k in ('tuple', 'list'):
         o, c = ('(', ')') if k == 'tuple' else ('[', ']')
+        if len(t[1]) > 16:
+            return o + ', '.join(show(x, depth + 1, maxdepth) for x in t[1][:4]) + ', …(%d items)' % len(t[1]) + c
         return o + ', '.join(show(x, depth + 1, maxdepth) for x in t[1]) + c
     if k == 'dict':
         return '{' + ', '.join('%s: %s' % (show(a, depth + 1, maxdepth), show(b, depth + 1, maxdepth))
